@@ -10,6 +10,7 @@ from mc.core import UnitResult
 from ref import sigs as S
 
 ID = "C05"
+PARTS = ['binds', 'raises', 'unk']      # outcome classes every run must produce (guards against a part of the exploration silently not running)
 RULE = ("state = (signature, call shape); signatures: all valid parameter lists over po/pk/*args/ko/**kw x default patterns; "
         "calls: npos x keyword subsets over (parameter names + z) x *() *(0,) *(0,0) x **{} **{first kw} **{z}; "
         "unknown-length: *xs (list[int], tuple[int,...]) and **kw (dict[str,int]); oracle = the real call raises TypeError")
